@@ -396,7 +396,8 @@ def build_pipeline(w, *, cached=(), tags=None, **pipeline_kwargs):
                 outer={v: k for k, v in inner.items()}, dict_out=fd["outputs"] if fd.get("dict_out") else None,
                 result_like=bool(fd.get("result_like")) and not fd.get("out_shape") and not fd.get("none_mod"),
                 public_name=fd.get("public_name"),
-                data_like=fd.get("data_like") if not fd.get("out_shape") and not fd.get("none_mod") else False,
+                data_like=("masked" if fd.get("masked_out") and fd.get("out_shape") else
+                           fd.get("data_like") if not fd.get("out_shape") and not fd.get("none_mod") else False),
                 # (only arrays the function receives whole - each call's own fresh copy -, never elements or slices, which
                 # in-memory storages hand out as views)
                 scribbles=[inner.get(p_, p_) for p_ in fd["params"] if p_ in fresh_arrays and fd.get("mapspec")
